@@ -251,6 +251,10 @@ func c02(r *core.Run) {
 	c06PureLookup(r, "W3")
 	c01GroupArg(r, "W5", a, root)
 	c06PrefixBoundary(r, "W6")
+	r.Rule("W7", "With runs the callback for every name a handler matches (shared with C06.R1): the trie matcher tries literal, placeholder, wildcard in that order and a failed recursive match falls through to the next candidate - where the recursive result is returned directly, a name that enters a literal subtree but only matches through the placeholder or wildcard sibling finds no handler, and With reports an error for a resource that has one", 3)
+	if ro := resolveMuxRolesFor(r, "W7"); ro != nil {
+		c06Specificity(r, "W7", ro)
+	}
 	c02StateWrittenOnlyByLifecycle(r, "N3", a, root)
 	if ro := resolveMuxRolesFor(r, "W4"); ro != nil {
 		c06Units(r, "W4", root, ro, true)
@@ -790,7 +794,7 @@ func c02WorkQueueShape(r *core.Run, rule string, a *svcAnchors, root []*ssa.Func
 					for _, ed := range dominatingEdges(st) {
 						d := describeCond(ed)
 						q := "len " + a.WorkQueue.String()
-						if d == q+"==1" {
+						if d == q+"==1" || c02LenMinusKIsOne(ed, a) {
 							ok = true
 						}
 						// "not more than one" together with the head having been read is "exactly one"
@@ -820,6 +824,36 @@ func c02WorkQueueShape(r *core.Run, rule string, a *svcAnchors, root []*ssa.Func
 		}
 	}
 
+}
+
+// c02LenMinusKIsOne: the edge of `len(workqueue)-k == c` (or the false edge of
+// `!=`) with k+c == 1 - "n := len(q)-1; if n == 0" is "exactly one item queued".
+func c02LenMinusKIsOne(ed edgeCond, a *svcAnchors) bool {
+	bo, ok := ed.If.Cond.(*ssa.BinOp)
+	if !ok || (bo.Op != token.EQL && bo.Op != token.NEQ) {
+		return false
+	}
+	if (bo.Op == token.EQL) != (ed.Succ == 0) {
+		return false
+	}
+	c, ok := core.ConstInt(bo.Y)
+	if !ok {
+		return false
+	}
+	sub, ok := bo.X.(*ssa.BinOp)
+	if !ok || sub.Op != token.SUB {
+		return false
+	}
+	k, ok := core.ConstInt(sub.Y)
+	if !ok || k+c != 1 {
+		return false
+	}
+	call, ok := sub.X.(*ssa.Call)
+	if !ok || core.CalleeName(call) != "builtin:len" {
+		return false
+	}
+	f, isF := core.LoadedField(call.Call.Args[0])
+	return isF && f == a.WorkQueue
 }
 
 // c02StateWrittenOnlyByLifecycle is C02.N3.
